@@ -340,6 +340,14 @@ func (tr *Tracer) gotoBlock(st *state, b *ssa.BasicBlock) (*state, []*state) {
 			tr.freshPhis(st, f, b, from)
 			return st, nil
 		default:
+			// verify the candidate invariants assumed for the generalised iteration
+			for _, inv := range f.loopInv[b] {
+				cur := tr.loadCellQuiet(st, inv.addr)
+				if k := tr.knownConst(st, cur); k == nil || k.Key() != inv.c.Key() {
+					tr.badInv[blockID(b)+inv.addr.Key()] = true
+					tr.restart = true
+				}
+			}
 			tr.finish(st, EndCut, nil)
 			return nil, nil
 		}
@@ -347,6 +355,19 @@ func (tr *Tracer) gotoBlock(st *state, b *ssa.BasicBlock) (*state, []*state) {
 	if f.loopGen[b] != 0 {
 		// entering a loop header again from outside the loop (nested loop re-entry)
 		f.loopGen[b] = 0
+	}
+	if isLoopHeader(b) {
+		// remember which cells hold known constants on first entry (candidates for loop invariants)
+		snap := map[string]*Sym{}
+		for k, c := range st.store {
+			if kc := tr.knownConst(st, c.val); kc != nil {
+				snap[k] = kc
+			}
+		}
+		if f.loopSnap == nil {
+			f.loopSnap = map[*ssa.BasicBlock]map[string]*Sym{}
+		}
+		f.loopSnap[b] = snap
 	}
 	f.prev, f.block, f.pc = from, b, 0
 	return st, nil
@@ -398,6 +419,41 @@ func (tr *Tracer) freshPhis(st *state, f *frame, h, from *ssa.BasicBlock) {
 	f.pc = pc
 }
 
+func blockID(b *ssa.BasicBlock) string {
+	return b.Parent().String() + "#" + b.String() + "|"
+}
+
+func isLoopHeader(b *ssa.BasicBlock) bool {
+	for _, p := range b.Preds {
+		if b.Dominates(p) {
+			return true
+		}
+	}
+	return false
+}
+
+// knownConst: the constant that the path knows v to be equal to (nil if none).
+func (tr *Tracer) knownConst(st *state, v *Sym) *Sym {
+	if v == nil {
+		return nil
+	}
+	if v.isConst() {
+		return v
+	}
+	if c, ok := st.eqc[v.Key()]; ok {
+		return c
+	}
+	return nil
+}
+
+// loadCellQuiet reads a cell without materialising it.
+func (tr *Tracer) loadCellQuiet(st *state, addr *Sym) *Sym {
+	if c, ok := st.store[addr.Key()]; ok {
+		return c.val
+	}
+	return nil
+}
+
 // generalise forgets memory that the loop body may change.
 func (tr *Tracer) generalise(st *state, f *frame, h, from *ssa.BasicBlock) {
 	body := loopBody(h, from)
@@ -440,7 +496,20 @@ func (tr *Tracer) generalise(st *state, f *frame, h, from *ssa.BasicBlock) {
 		if r.Kind != KAlloc && tr.keepOnHavoc(st, c.addr) {
 			continue
 		}
-		st.store[k] = &cell{addr: c.addr, val: st.fresh("loopmem", symValType(c.val), nil)}
+		nv := st.fresh("loopmem", symValType(c.val), nil)
+		// candidate invariant: the cell held the same constant on first entry and now at the back edge
+		if snap := f.loopSnap[h]; snap != nil {
+			if c0, ok := snap[k]; ok && !tr.badInv[blockID(h)+k] {
+				if c1 := tr.knownConst(st, c.val); c1 != nil && c1.Key() == c0.Key() {
+					st.eqc[nv.Key()] = c0
+					if f.loopInv == nil {
+						f.loopInv = map[*ssa.BasicBlock][]loopInvariant{}
+					}
+					f.loopInv[h] = append(append([]loopInvariant(nil), f.loopInv[h]...), loopInvariant{addr: c.addr, c: c0})
+				}
+			}
+		}
+		st.store[k] = &cell{addr: c.addr, val: nv}
 	}
 }
 
